@@ -27,7 +27,7 @@ ASSUMPTIONS = ['no entry exists at the original locations beforehand (clobbering
                'the reply grammar itself is a pure function of the reply; the simulator contributes sorting, scoping and the effect on disk']
 PROBES = ['valid-reply', 'invalid-reply', 'empty-reply', 'eof', 'range', 'sort-none', 'sort-path', 'sort-date',
           'scope-excludes-sibling-prefix', 'restored', 'scope-by-argument', 'tie-in-sort-key',
-          'nested-or-same-location-selection', 'nested-selection-all-free-in-reply-order', 'junk-next-to-the-entries']
+          'nested-or-same-location-selection', 'nested-selection-all-free-in-reply-order', 'junk-next-to-the-entries', 'same-path-same-second-twice']
 TECHNIQUE = 'deterministic simulation of trash-restore with fuzzed replies; listing/scoping/selection compared with an independent reply parser and scope predicate'
 LEVEL_TEXT = 'seeded exploration of reply strings x location sets x sort modes; what is printed at an index must be what is restored'
 LEVEL_NOTE = 'trusted: model/reply.py, model/bag.py; sampled'
@@ -78,6 +78,7 @@ def gen(rng):
     cand = ['foo', 'foobar', 'fo', 'x', 'foo_1', 'zeta', 'Alpha', 'bar baz']
     n = rng.choice([0, 1, 2, 3, 4, 6, 9, 12])
     used = set()
+    twins = [0]
     dates = [TG.rand_date(rng) for _ in range(4)]
     for i in range(n):
         tdir, top, _u = rng.choice(locs)
@@ -95,6 +96,10 @@ def gen(rng):
         pv = TG.pct(loc if top is None else loc[len(top) + 1:])
         date = rng.choice(dates) if rng.random() < 0.4 else TG.rand_date(rng)
         G.add_trashed(steps, tdir, 't%d' % i, pv, TG.iso(date), rng.choice(['file', 'dir', 'link']), tag=str(i))
+        if rng.random() < 0.08:
+            # the same path trashed again within the same second (a script that trashes and recreates a file): two entries, two lines
+            G.add_trashed(steps, tdir, 't%d_1' % i, pv, TG.iso(date), rng.choice(['file', 'dir']), tag='%d-twin' % i)
+            twins[0] += 1
     if rng.random() < 0.2:
         # junk next to the entries (an empty .trashinfo left by an interrupted put, an unreadable one ...): everything that is
         # well-formed and in scope is still listed, numbered and restorable
@@ -126,7 +131,7 @@ def gen(rng):
     if rng.random() < 0.4:
         argv.append(rng.choice(['/', home + '/a', home + '/a/foo', home + '/a/fo', home + '/ab', 'a', '../ab', '.', home + '/a/'] +
                                [v + '/a' for v in L['vols']]))
-    reply = gen_reply(rng, min(n, 12))
+    reply = gen_reply(rng, min(n + twins[0], 12))
     if nested:
         m = len(used)
         perm = list(range(m))
@@ -170,6 +175,8 @@ def check(sim, case, st):
     res = []
     sm = sort_mode(spec['argv'])
     st.probes['sort-' + sm] += 1
+    if len(set((str(e.date), e.location) for e in bag0 if e.location)) < len([e for e in bag0 if e.location]):
+        st.probes['same-path-same-second-twice'] += 1
     if any('mal_' in k for k in snap0):
         st.probes['junk-next-to-the-entries'] += 1
 
